@@ -170,7 +170,16 @@ pub fn drive_request(
 ) -> Result<ReqDrive, Violation> {
     let mut d = ReqDrive { output: Vec::new(), fed: *pos, done: false, calls: 0 };
     let mut idle_calls = 0;
+    let mut spare: Option<request::Parser<'_>> = None;
     loop {
+        // the parser is Clone: a caller may at any moment continue on a copy (or on an older copy brought up to date
+        // with clone_from); a copy is the same parser
+        match cx.ch.weighted(&[60, 1, 1, 1]) {
+            1 => { let c = parser.clone(); *parser = c; cx.probe("continued_on_clone"); }
+            2 => { spare = Some(parser.clone()); }
+            3 => { if let Some(mut sp) = spare.take() { sp.clone_from(parser); *parser = sp; cx.probe("continued_on_clone_from"); } }
+            _ => {}
+        }
         let space = parser.input_buffer().len();
         if space == 0 { cx.probe("parse0_on_full_buffer"); }
         let remaining = opts.cap.saturating_sub(*pos);
